@@ -8,8 +8,12 @@ import (
 	"fmt"
 	"os"
 	"path/filepath"
+	"runtime/debug"
 	"strings"
+	"sync"
 	"testing"
+
+	"github.com/veraison/psatoken/encoding"
 
 	"github.com/veraison/psatoken"
 	"pgregory.net/rapid"
@@ -25,6 +29,14 @@ type c05In struct {
 }
 
 var c05Kind = registerKind("c05", func(in c05In) string {
+	if fam, isCanary := strings.CutPrefix(in.Entry, "(canary after) "); isCanary {
+		for _, e := range entriesOf(fam) {
+			if _, _, pm := runEntryNoPanic(e, in.Data, true); pm != "" {
+				return pm
+			}
+		}
+		return c05Canary()
+	}
 	e, ok := entryByName(in.Entry)
 	if !ok {
 		return "VERIF-INFRA: unknown entry point " + in.Entry
@@ -46,6 +58,54 @@ func wellFormedFor(family string, data []byte) bool {
 }
 
 // c05Run feeds one input to every entry point of the given families.
+// c05Canary: after the calls made for one input (many of which fail), a fixed
+// battery of ordinary operations on unrelated, known-good values must still
+// work: state left behind by a failed call must not make a later call panic.
+var c05CanaryVals struct {
+	once   sync.Once
+	flat   *ShapeFlat
+	outer  *ShapeOuter2
+	ext    psatoken.IClaims
+	p1json []byte
+	p2cbor []byte
+	flatJS []byte
+	flatCB []byte
+}
+
+var c05CanaryTick int
+
+func c05Canary() (panicMsg string) {
+	v := &c05CanaryVals
+	v.once.Do(func() {
+		i7, s := int64(7), "s"
+		bs := []byte{1, 2}
+		v.flat = &ShapeFlat{A: &i7, B: &s, C: &bs, D: 3, E: "e", F: 9, G: &bs}
+		v.outer = &ShapeOuter2{R: 1, ShapeMid: ShapeMid{ShapeInner: ShapeInner{X: &i7, Y: "y"}, Z: &i7}, S: &s}
+		m := baseValid(P2, 1)
+		v.ext, _ = buildExt(m, &i7)
+		if c, ok := baseValid(P1, 1).BuildLiteral(); ok {
+			v.p1json, _ = psatoken.EncodeClaimsToJSON(c)
+		}
+		v.p2cbor = baseValid(P2, 1).WireBytes()
+		v.flatJS, _ = json.Marshal(v.flat)
+		v.flatCB, _ = hem.Marshal(v.flat)
+	})
+	defer func() {
+		if r := recover(); r != nil {
+			panicMsg = fmt.Sprintf("panic in an ordinary operation on an unrelated known-good value AFTER the previous (failed or successful) decoding calls: %v\n    %s", r, firstLines(string(debug.Stack()), 14))
+		}
+	}()
+	_, _ = encoding.SerializeStructToJSON(v.flat)
+	_, _ = encoding.SerializeStructToCBOR(hem, v.outer)
+	_, _ = psatoken.EncodeClaimsToJSON(v.ext)
+	_, _ = psatoken.EncodeClaimsToCBOR(v.ext)
+	_ = encoding.PopulateStructFromJSON(v.flatJS, &ShapeFlat{})
+	_ = encoding.PopulateStructFromCBOR(hdm, v.flatCB, &ShapeFlat{})
+	_, _ = psatoken.DecodeClaimsFromJSON(v.p1json)
+	_, _ = psatoken.DecodeClaimsFromCBOR(v.p2cbor)
+	return ""
+}
+
 type c05Fail struct {
 	In  c05In
 	Msg string
@@ -78,6 +138,13 @@ func c05Run(st *Stats, families []string, data []byte, class string) (fail *c05F
 				}
 			}
 			nCalls++
+		}
+		c05CanaryTick++
+		if class == "tiny" && c05CanaryTick%16 != 0 {
+			// the enumeration of very short inputs runs the canary on a sample
+		} else if pm := c05Canary(); pm != "" && fail == nil {
+			in := c05In{Entry: "(canary after) " + fam, Data: data}
+			fail = &c05Fail{in, pm}
 		}
 		key := ""
 		if wf || anyOK {
@@ -209,7 +276,7 @@ func c05JSONBases() []struct {
 // ---- TestC05_Structured: every node x every mutation, exhaustively ----
 
 func TestC05_Structured(t *testing.T) {
-	st := NewStats("C05", "TestC05_Structured", "enumeration: for each base document (CBOR: 6 claims maps of both profiles, a components array, a component map, 2 helper shapes; JSON: the library's own JSON of 4 claims-sets, components, component, a helper shape) every node (keys and values at every depth) x {null, undefined, empty, duplicate, delete, nest in array/map, tag, indefinite, 8-byte head, bstr-wrap, double, swap with sibling, tag18} and x a pool of ~38 replacement items of every CBOR type (JSON: 9 structural mutations x pool of 31 values incl. 300-deep nesting, 1e400, non-base64); each mutant goes to every CBOR (resp. JSON) entry point incl. the per-type unmarshal methods, both extension types and the populate helpers with flat / embedded / interface-embedded destinations, and (wrapped as payload of a correctly signed tag-18 envelope) to the four COSE entry points; the envelope itself is mutated the same way. Oracle: recover() - no panic while decoding nor while validating / reading every getter / re-encoding to CBOR and JSON / verifying with 10 keys whatever was returned without error. Non-trivial = the input got past the first decoding layer (well-formed CBOR / valid JSON) or was decoded; distinct = family + input")
+	st := NewStats("C05", "TestC05_Structured", "enumeration: for each base document (CBOR: 6 claims maps of both profiles, a components array, a component map, 2 helper shapes; JSON: the library's own JSON of 4 claims-sets, components, component, a helper shape) every node (keys and values at every depth) x {null, undefined, empty, duplicate, delete, nest in array/map, tag, indefinite, 8-byte head, bstr-wrap, double, swap with sibling, tag18} and x a pool of ~38 replacement items of every CBOR type (JSON: 9 structural mutations x pool of 31 values incl. 300-deep nesting, 1e400, non-base64); each mutant goes to every CBOR (resp. JSON) entry point incl. the per-type unmarshal methods, both extension types and the populate helpers with flat / embedded / interface-embedded destinations, and (wrapped as payload of a correctly signed tag-18 envelope) to the four COSE entry points; the envelope itself is mutated the same way; both profile claims (CBOR -75000 and 265, JSON psa-profile and eat-profile) are set to every PAIR of pool items; after the calls made for each input a canary battery of ordinary operations on unrelated known-good values must still not panic (state left behind by failed calls). Oracle: recover() - no panic while decoding nor while validating / reading every getter / re-encoding to CBOR and JSON / verifying with 10 keys whatever was returned without error. Non-trivial = the input got past the first decoding layer (well-formed CBOR / valid JSON) or was decoded; distinct = family + input")
 	st.Exhaustive = true
 	st.Require = []string{"decoded-ok", "wellformed-rejected", "family=cbor", "family=json", "family=cose", "family=enc-cbor", "family=enc-json", "mut=null", "mut=duplicate", "mut=swap"}
 	defer st.Flush(t)
@@ -264,6 +331,35 @@ func TestC05_Structured(t *testing.T) {
 			cborSlots(c)[si].set(repl.Clone())
 			if mine() {
 				c05Run(st, coseFamilies, icbor.Encode(c), "mut=swap").report(t)
+			}
+		}
+	}
+	// both profile claims at once (CBOR keys -75000 and 265; JSON members
+	// psa-profile and eat-profile), every pair of replacement items
+	for _, p := range []Prof{P1, P2} {
+		body := bodyPairs(baseValid(p, 0))
+		for _, a := range pool {
+			for _, b := range pool {
+				if !mine() {
+					continue
+				}
+				ps := append([][2]*icbor.Node{icbor.P(icbor.I(-75000), a.Clone()), icbor.P(icbor.U(265), b.Clone())}, body...)
+				data := icbor.Encode(icbor.Map(ps...))
+				c05Run(st, cborFamilies, data, "mut=profile-pair").report(t)
+			}
+		}
+	}
+	jpoolP := jsonSwapPool()
+	for _, p := range []Prof{P1, P2} {
+		for _, a := range jpoolP {
+			for _, b := range jpoolP {
+				if !mine() {
+					continue
+				}
+				o := modelJN(baseValid(p, 0))
+				o.keys = append(o.keys, "psa-profile", "eat-profile")
+				o.vals = append(o.vals, a.clone(), b.clone())
+				c05Run(st, jsonFamilies, []byte(o.String()), "mut=profile-pair").report(t)
 			}
 		}
 	}
